@@ -8,6 +8,10 @@ Local Open Scope Z_scope.
 Theorem C02_oob_iff : forall z0 z1 size, 0 < size -> z0 < z1 ->
   (make_slice_and_pad z0 z1 size = None <-> (z1 <= 0 \/ size <= z0)).
 Proof. exact msp_oob_iff. Qed.
+(** the box of a load: the shape passed to the call wins over the loader's own default; without either the call is rejected *)
+Theorem C02_call_box : forall s own, call_box (Some s) own = Some s /\ call_box None own = own.
+Proof. intros; split; reflexivity. Qed.
+
 Print Assumptions C02_oob_iff.
 
 (** partial overlap: clipped slice, pads, length conservation, index shift *)
